@@ -8,7 +8,7 @@ C09 — assembly of the refinement: every transliterated `SendBuf` operation, ru
 state (`Rel`), inside the operation's domain (`DomX`), does not panic and is a legal step of the specification
 (`stepOk`) to a state that is again represented.  The four index-juggling routines enter as named hypotheses
 (`AckRefines`, `ShiftRefines`, `LossRefines`, `PickRefines`); they are discharged in `Lemmas/BufMapAck.lean`,
-`Lemmas/BufMapPick.lean`, `Lemmas/BufMapLoss.lean` as far as proved (see `Props/C09/Refine.lean`).
+`Lemmas/BufMapPick.lean`, `Lemmas/BufMapLoss.lean` (`ackRefines`, `shiftRefines`, `pickRefines`, `lossRefines` below).
 -/
 namespace GmQuic.BufMap
 open GmQuic.SendSpec
@@ -251,5 +251,8 @@ theorem shiftRefines : ShiftRefines := fun m hwf => shift_refines m hwf
 /-- `pick` stays inside `pickOk` (`Lemmas/BufMapPick.lean`) -/
 theorem pickRefines : PickRefines :=
   fun m s pred flow hwf hsize hcol hwin h62 hp => pick_refines m s pred flow hwf hsize hcol hwin h62 hp
+
+/-- `may_loss` / `may_lost_from` refine the spec (`Lemmas/BufMapLoss.lean`) -/
+theorem lossRefines : LossRefines := fun m a b hwf hab hb hnp => mayLoss_refines m a b hwf hab hb hnp
 
 end GmQuic.BufMap
